@@ -33,3 +33,4 @@ PROP = {
     "assumptions": STD_ASSUME + ["Inv_GammaP/Q requests whose exact answer is smaller than 1e-290 (tiny a, small p) are outside: no double solves them",
                                  "tolerances 1e-12 / 1e-3 / 1e-7 are the numbers stated by the property"],
 }
+PROP["level_text"] += ' Binomial coefficients are also asked for in fresh processes whose factorial memo is still short (32 eps for n <= 170); arguments exactly at the ends of the a > 100 quadrature window and subnormal x are part of the grid.'
